@@ -137,6 +137,53 @@ def r19_1(prog, rep, rid="R19.1"):
         rep.broken_("rule=%s expected >=10 ass_* sites in snarf_rrule, found %d" % (rid, n))
 
 
+RFC_DOMAIN = {   # RFC 5545 3.3.10: values every conforming reader must accept (0 never is a member of the signed lists)
+    "mon": (1, 12), "H": (0, 23), "M": (0, 59), "S": (0, 60), "dom": (-31, 31), "doy": (-366, 366), "wk": (-53, 53), "pos": (-366, 366),
+}
+
+
+def r01_5(prog, rep, rid="R01.5"):
+    """The parser's guards admit every value RFC 5545 allows for a rule part (the other direction of R19.1): a guard that is too tight
+    silently drops legal members, e.g. the 0 of BYHOUR/BYMINUTE/BYSECOND."""
+    f = prog.fn("snarf_rrule", "evical.c")
+    cfg = f.cfg
+    mf = MustFacts(cfg)
+    n = 0
+    for b, i, c, line in f.all_calls():
+        fn = c.get("fn")
+        if fn not in ASS:
+            continue
+        val = strip_casts(cfg.resolve(c["a"][1]))
+        tgt = lv(strip_casts(cfg.resolve(c["a"][0]))).lstrip("&")
+        fld = tgt.split(".")[-1].split("->")[-1]
+        if fld not in RFC_DOMAIN or val.get("k") == "call":
+            continue
+        n += 1
+        key = "snarf_rrule/admits(%s)" % fld
+        arg = lv(val)
+        lo, hi, nz = arg_interval(f, mf, b, i, arg)
+        unsigned = "unsigned" in (val.get("t") or "")
+        if lo is None and unsigned:
+            lo = 0
+        rlo, rhi = RFC_DOMAIN[fld]
+        if lo is None or hi is None:
+            continue   # R19.1 reports unbounded values
+        problems = []
+        if lo > rlo:
+            problems.append("values below %d" % lo)
+        if hi < rhi:
+            problems.append("values above %d" % hi)
+        if nz and rlo <= 0 <= rhi and fld in ("H", "M", "S"):
+            problems.append("the value 0")
+        if problems:
+            rep.fail(rid, key, f.loc(line), "RFC 5545 allows %d..%d for this rule part but the parser's guard rejects %s: legal members are "
+                     "silently dropped from the rule" % (rlo, rhi, " and ".join(problems)))
+        else:
+            rep.ok(rid, key, f.loc(line), "guard admits [%d, %d]%s, which covers RFC 5545's %d..%d" % (lo, hi, " without 0" if nz else "", rlo, rhi))
+    if n < 7:
+        rep.broken_("rule=%s expected >=7 scalar rule parts with an RFC domain, found %d" % (rid, n))
+
+
 def _wday_values(prog):
     f = prog.fn("snarf_wday", "evical.c")
     vals = set()
